@@ -31,6 +31,18 @@ P = {
   "Generated sets of calls on a real Conn to a scripted peer: the harness orders response-before-cancel, cancel/deadline, late response for the abandoned call, and final responses for live siblings; context buffers at capacity len-1/len/len+1 etc. Oracle: ctx error returned within 2 s when never answered, reply right when answered first, either when both; siblings complete exactly once with their own reply and are untouched by late responses; buffer used iff large enough, guard bytes intact.",
   "Trusted: frame link, scripted peer; 'promptly' = 2 s bound which must reproduce in isolation (rule T).",
   "property-based testing (rapid) with harness-owned response/cancel ordering"),
+ "C04": ("exploration",
+  "Generated request lists from a scripted client (reference encoder) to a real Server - all handler shapes, gated handlers, failing handlers, unknown methods, pings, stream open/data/close - released in drawn batches, optionally disconnecting after item j with requests queued and executing; plus call/kill/restart histories through a real Transport and Client. Oracle from the handler execution log and the recorded response frames: executed exactly once when answered, at most once when sent, never for pings/unsent ids, argument digest equal, one response per sequence number; successful Transport/Client calls executed exactly once and no call twice.",
+  "Trusted: execution log, scripted client, frame link batching (never reorders). Non-poll server modes; poll needs real sockets.",
+  "model-based property testing (rapid) with execution-log invariant; scripted peer over harness-owned link"),
+ "C05": ("exploration",
+  "Server side: scripted clients on 1-4 connections write 2-300 request frames released in drawn batches to a pipelining Server (direct/async IO); oracle: per connection the handler intervals (atomic tick counter) are disjoint and in send order, responses are in request order, and a connection blocked in a gated handler does not delay the others. Client side: one goroutine issues 2-300 Go calls (ok / handler error / unknown method / undecodable args / unencodable reply) on one shared Done channel over a pipelined real Conn; oracle: arrival order == issue order for every completion carried by a response.",
+  "Trusted: tick counter, frame link. Pings and locally failing calls are outside the ordering oracle (scope note in DESIGN.md). Non-poll modes.",
+  "property-based testing (rapid) with ordering invariants over execution log, wire order and Done arrival order"),
+ "C08": ("fault_enumeration",
+  "Enumeration per header encoder: hostile constants, every truncation and 14 (quick) / 255 (thorough) single-byte corruptions per position of 8 valid request frames against a real Server and of 4 valid response frames against a real Conn with pending calls and an open stream, all 256 upgrade bytes x method kinds x stream states, and a disconnect after every prefix of a 12-request burst in every non-poll mode; plus rapid-generated mutated/random frame sequences and random bursts. The worker process is the crash detector: the driver reads the case journal of a dead worker, confirms the case in a fresh process and shrinks it; in-process oracle: probes on the same (if it survived) and on another connection are answered correctly.",
+  "Trusted: frame level only (length-prefix framing is the dependency hslam/socket); non-poll server modes.",
+  "exhaustive fault enumeration + rapid-generated hostile sequences in crash-isolated worker processes; native go fuzz in thorough"),
 }
 
 NOT_BUILT_REASON = "check not built yet in this session; see DESIGN.md section 6 for the planned generated check"
